@@ -21,6 +21,18 @@ From IQ Require Import Counting CountingCounter CountingCheck.
 Open Scope Z_scope.
 """
 
+def section(ctx, name, f, *a):
+    """one section of a check: an exception of the harness itself is recorded (the check then fails as 'no longer checks') and the other sections still run"""
+    import traceback
+    try:
+        return f(*a)
+    except Exception:
+        ctx.broken("harness:%s" % name, "exception in section %s of the check (the other sections were still run):\n%s" % (name, traceback.format_exc()[-3000:]))
+
+def impl_error(e):
+    import traceback
+    return "%s: %s | %s" % (type(e).__name__, e, " <- ".join(l.strip().replace("\n", " ") for l in traceback.format_tb(e.__traceback__)[-3:]))[:1500]
+
 # ---------------------------------------------------------------------------------------------- Coq printers
 def cq(fr):
     fr = Fraction(fr)
@@ -338,17 +350,68 @@ def world_with_multilocus(seed, n_multi=3, unmapped=0):
                 w.add_read("mm_%d" % i, g["chr"], ex, g["strand"], flag=256, tags={"RG": "mid"})
     return w
 
-def write_world(w, out_dir, unmapped=0):
+def add_unmapped(path, n, prefix="unmapped"):
+    """append n unmapped records (flag 4, no reference sequence) to a coordinate-sorted BAM file and index it again"""
     import pysam
-    paths = w.write(out_dir)
-    if unmapped:
-        src = paths[0]; tmp = src + ".tmp.bam"
-        inp = pysam.AlignmentFile(src, "rb")
-        with pysam.AlignmentFile(tmp, "wb", header=inp.header) as out:
-            for a in inp.fetch(until_eof=True): out.write(a)
-            for i in range(unmapped):
-                a = pysam.AlignedSegment(inp.header); a.query_name = "unmapped_%d" % i; a.flag = 4; a.reference_id = -1; a.reference_start = -1
-                a.query_sequence = "ACGTTGCA" * 10; a.mapping_quality = 0
-                out.write(a)
-        inp.close(); os.replace(tmp, src); pysam.index(src)
+    tmp = path + ".tmp.bam"
+    inp = pysam.AlignmentFile(path, "rb")
+    with pysam.AlignmentFile(tmp, "wb", header=inp.header) as out:
+        for a in inp.fetch(until_eof=True): out.write(a)
+        for i in range(n):
+            a = pysam.AlignedSegment(inp.header); a.query_name = "%s_%d" % (prefix, i); a.flag = 4; a.reference_id = -1; a.reference_start = -1
+            a.query_sequence = "ACGTTGCA" * 10; a.mapping_quality = 0
+            out.write(a)
+    inp.close(); os.replace(tmp, path); pysam.index(path)
+
+def count_unmapped(paths):
+    """the input's own tally: records of the BAM files of one experiment that carry the unmapped flag (every record is read; the index statistics are not used)"""
+    import pysam
+    n = 0
+    for p in paths:
+        with pysam.AlignmentFile(p, "rb") as f:
+            n += sum(1 for a in f.fetch(until_eof=True) if a.is_unmapped)
+    return n
+
+def write_world(w, out_dir, unmapped=0, n_bams=1):
+    """unmapped: a number (appended to the first file) or one number per BAM file"""
+    paths = w.write(out_dir, n_bams=n_bams)
+    per = list(unmapped) if isinstance(unmapped, (list, tuple)) else [unmapped] + [0] * (n_bams - 1)
+    for k, (p, n) in enumerate(zip(paths, per)):
+        if n: add_unmapped(p, n, "unmapped_f%d" % k)
     return paths
+
+def obs_g_files(d, kind, prefix="S"):
+    hdr, rows, under = parse_table(os.path.join(d, "%s.%s_grouped_counts.tsv" % (prefix, kind)))
+    lin = parse_linear(os.path.join(d, "%s.%s_grouped_counts_linear.tsv" % (prefix, kind)))
+    _, tpm, _ = parse_table(os.path.join(d, "%s.%s_grouped_tpm.tsv" % (prefix, kind)))
+    _, urows, _ = parse_table(os.path.join(d, "%s.%s_counts.tsv" % (prefix, kind)))
+    return hdr, rows, lin, tpm, urows, under
+
+def grouped_cases(ctx, j, rep, recs, ref_tr, ref_genes, model_tr, prefix="S"):
+    """Coq cases (ccase, gobs) for the grouped gene / transcript / transcript-model tables of one finished run.  j: out, fmt (--counts_format), gq / tq
+       (the strategy that applies to the gene table / to the transcript and transcript-model tables), group_of (ground truth read id -> group).
+       recs None = a run without --genedb (only the transcript-model tables exist).  Returns (cases, snapshot of the parsed tables)."""
+    d = os.path.join(j["out"], prefix); snapshot = {}; cases = []
+    tables = []
+    if recs is not None:
+        evs = [record_event(r, j["group_of"](r["read_id"])) for r in recs]
+        tables += [("gene", "gene", j["gq"], evs, list(ref_genes), True, j["fmt"]), ("transcript", "transcript", j["tq"], evs, list(ref_tr), True, j["fmt"])]
+    if model_tr is not None:
+        tables.append(("transcript_model", "transcript", j["tq"], model_events(j["out"], prefix, model_tr, None, j["group_of"]), [], False, "both"))
+    for kind, level, strat, events, complete, zeroes, fmt in tables:
+        hdr, rows, lin, tpm, urows, under = obs_g_files(d, kind, prefix)
+        snapshot[kind] = (hdr, rows, sorted(lin), tpm)
+        if hdr is None and not lin:
+            ctx.violation(None, "a run with --read_group wrote no grouped %s table" % kind, rep); continue
+        universe = set(hdr or []) | set(e["group"] for e in events if "group" in e) | set(g for _, g, _ in lin)
+        case = file_case(strat, level, events, complete, zeroes, "simple", 0, fmt=fmt, groups=sorted(universe))
+        fi, gi = interners(case, extra_groups=universe)
+        try:
+            obs = "(mkgobs [] %s %s %s %s %s)" % (czs([gi(g) for g in (hdr or [])]), crows(rows, fi), clinear(lin, fi, gi), crows(tpm, fi), crows(urows, fi))
+            term = "(%s, %s)" % (ccase(case, fi, gi), obs)
+        except KeyError as e:
+            ctx.violation(None, "grouped %s table lists a feature that is neither annotated nor reported" % kind, dict(rep, feature=str(e))); continue
+        if under: ctx.violation(None, "grouped table carries statistics lines", rep)
+        cases.append((term, dict(rep, table="%s.%s_grouped_counts*.tsv" % (prefix, kind), strategy=strat, header=hdr, matrix=[(f, [str(x) for x in v]) for f, v in rows][:300],
+                                 linear=[(f, g, str(v)) for f, g, v in lin][:600])))
+    return cases, snapshot
